@@ -127,6 +127,8 @@ type drv struct {
 	instOf  map[int64]int64         // request -> instance it popped
 	entered int64
 	ended   map[int64]bool
+	updSeq  int64
+	byGoU   map[int64]int64 // goroutine -> management call it is making
 }
 
 var D atomic.Value // *drv of the running session; the hook is installed once and dispatches through it
@@ -281,16 +283,22 @@ func (d *drv) hook(site string, a, b int64) {
 	case "push":
 		d.o.Emit(obs.Event{"ev": "push", "i": a, "locked": b % 2, "len": b / 2})
 	case "publish":
+		d.mu.Lock()
+		u := d.byGoU[goid()]
+		d.mu.Unlock()
 		if d.gatePub {
-			d.o.Hold(obs.Event{"ev": "publish", "i": a, "kind": b}, "publish")
+			d.o.Hold(obs.Event{"ev": "publish", "i": a, "kind": b, "u": u}, "publish")
 		} else {
-			d.o.Emit(obs.Event{"ev": "publish", "i": a, "kind": b})
+			d.o.Emit(obs.Event{"ev": "publish", "i": a, "kind": b, "u": u})
 		}
 	case "incr_mid":
+		d.mu.Lock()
+		u := d.byGoU[goid()]
+		d.mu.Unlock()
 		if d.gatePub {
-			d.o.Hold(obs.Event{"ev": "incr_mid"}, "incr_mid")
+			d.o.Hold(obs.Event{"ev": "incr_mid", "u": u}, "incr_mid")
 		} else {
-			d.o.Emit(obs.Event{"ev": "incr_mid"})
+			d.o.Emit(obs.Event{"ev": "incr_mid", "u": u})
 		}
 	}
 }
@@ -309,7 +317,17 @@ func nzr(xs []RuleV) []RuleV {
 }
 
 func (d *drv) doUpdate(u *Update) {
-	d.o.Emit(obs.Event{"ev": "upd_begin", "kind": u.Kind, "rules": nzr(u.Rules), "names": nz(u.Names)})
+	id := atomic.AddInt64(&d.updSeq, 1)
+	g := goid()
+	d.mu.Lock()
+	d.byGoU[g] = id
+	d.mu.Unlock()
+	defer func() {
+		d.mu.Lock()
+		delete(d.byGoU, g)
+		d.mu.Unlock()
+	}()
+	d.o.Emit(obs.Event{"ev": "upd_begin", "u": id, "kind": u.Kind, "rules": nzr(u.Rules), "names": nz(u.Names)})
 	var err error
 	var pv interface{}
 	func() {
@@ -333,7 +351,7 @@ func (d *drv) doUpdate(u *Update) {
 			err = d.pool.UpdatePooledRulesIncremental("rule \"r1\" \"d\" begin end rule \"r1\" \"e\" begin end")
 		}
 	}()
-	ev := obs.Event{"ev": "upd_end", "kind": u.Kind, "ok": err == nil && pv == nil, "panic": pv != nil}
+	ev := obs.Event{"ev": "upd_end", "u": id, "kind": u.Kind, "ok": err == nil && pv == nil, "panic": pv != nil}
 	if pv != nil {
 		ev["panicmsg"] = fmt.Sprint(pv)
 	}
@@ -614,11 +632,14 @@ func (d *drv) quiesce() {
 }
 
 func runSession(s *Session, quiet time.Duration, seed int64) ([]obs.Event, bool) {
+	if s.Kind == "cold" {
+		return runCold(s), true
+	}
 	all := []obs.Event{{"ev": "session", "id": s.ID}}
 	o := obs.New(s.Gated, quiet, seed+int64(s.ID)*271)
 	o.Silent = s.Silent
 	d := &drv{o: o, byGo: map[int64]int64{}, spun: map[int64]bool{}, reqs: map[int64]*Req{}, sess: s, trigged: map[int64]bool{},
-		manual: map[int64]chan struct{}{}, instOf: map[int64]int64{}, ended: map[int64]bool{}}
+		manual: map[int64]chan struct{}{}, instOf: map[int64]int64{}, ended: map[int64]bool{}, byGoU: map[int64]int64{}}
 	D.Store(d)
 	text := versionText(s.Rules)
 	if s.Kind == "isolation" || s.Kind == "capacity" {
@@ -687,6 +708,19 @@ func runSession(s *Session, quiet time.Duration, seed int64) ([]obs.Event, bool)
 			case "update":
 				d.gatePub = false
 				d.doUpdate(st.Update)
+			case "updrace":
+				// several management calls at once (each on its own goroutine), parked at the hooks inside the update
+				// lock when the session is gated, together with requests
+				d.gatePub = s.Gated
+				ups := st.Updates
+				var uw sync.WaitGroup
+				for i := range ups {
+					uw.Add(1)
+					go func(u *Update) { defer uw.Done(); d.doUpdate(u) }(&ups[i])
+				}
+				d.burst(st.Reqs, s.CheckV, nil)
+				uw.Wait()
+				d.gatePub = false
 			case "setmodel":
 				e := p.SetExecModel(st.M)
 				o.Emit(obs.Event{"ev": "setmodel", "m": st.M, "ok": e == nil})
